@@ -91,14 +91,15 @@ Fixpoint safe_body (tainted : list string) (body : list stmt) : bool :=
 Definition safe (wrapped : bool) (f : fn) : bool := wrapped || safe_body (f_params f) (f_body f).
 
 (* observable store behaviour of one call with four arguments (three arrays and the step size; the step size is an immutable
-   number): which of the caller's four objects were written, and for every returned name whether it is one of the caller's objects
+   number; `args` = their addresses, which may repeat: predict(U, U, A, dt) passes the same object twice): which of the caller's four objects were written, and for every returned name whether it is one of the caller's objects
    (its address) or a fresh one (-1).  Values count writes: an augmented assignment increments, so "written" = value <> 0.
    Compared by the harness with what CPython / numpy / jax do with the real function objects (tools/props/c15.py, store tie). *)
-Definition store_signature (wrapped : bool) (f : fn) (writable : bool) : list (list nat) :=
+Definition store_signature_at (wrapped : bool) (f : fn) (writable : bool) (args : list nat) : list (list nat) :=
   let h : heap nat := [(0, writable); (0, writable); (0, writable); (0, false)] in
-  let '(h1, rets) := call nat 0 (fun _ vs => S (hd 0 vs)) (fun _ => writable) wrapped f h [0; 1; 2; 3] in
+  let '(h1, rets) := call nat 0 (fun _ vs => S (hd 0 vs)) (fun _ => writable) wrapped f h args in
   [ map (fun l => fst (nth l h1 (dobj nat 0))) [0; 1; 2; 3];
     map (fun r => match r with Some l => if Nat.ltb l 4 then S l else 0 | None => 99 end) rets ].
+Definition store_signature (wrapped : bool) (f : fn) (writable : bool) : list (list nat) := store_signature_at wrapped f writable [0; 1; 2; 3].
 
 Local Open Scope string_scope.
 (* predict as written at the time of writing (NOT the tie -- that is gen/CFG_c15.v): witness for the refutation *)
